@@ -703,18 +703,29 @@ def rule_product_sites(ctx, rep: Report, rid="N1", min_sites=3):
         if not mi.rel.startswith(TI):
             continue
         for loop in ast.walk(mi.tree):
-            if not (isinstance(loop, ast.For) and isinstance(loop.iter, ast.Call) and len(loop.iter.args) == 1
-                    and unparse(loop.iter.args[0]).endswith(".template")):
+            if not (isinstance(loop, ast.For) and isinstance(loop.iter, ast.Call)):
+                continue
+            as_arg = len(loop.iter.args) == 1 and unparse(loop.iter.args[0]).endswith(".template")
+            as_method = isinstance(loop.iter.func, ast.Attribute) and unparse(loop.iter.func.value).endswith(".template") and not loop.iter.args
+            if not (as_arg or as_method):
                 continue
             fn = enclosing(loop, ast.FunctionDef)
             ci = None
             cls = enclosing(loop, ast.ClassDef)
             if cls is not None:
                 ci = prog.cls(cls.name)
-            callees = [c for c in eff.resolve_call(loop.iter, mi, ci, fn) if c in eff.funcs]
-            for c in callees:
+            if as_method:
+                # <decl>.template.<method>(): a method of the parser's Template class
+                tm = prog.find_method(prog.cls("Template"), loop.iter.func.attr)
+                if tm is None:
+                    raise AnalysisError(f"{mi.rel}:{loop.lineno}: instantiations are enumerated by Template.{loop.iter.func.attr}, which was not found")
+                callees_fn = [(f"Template.{loop.iter.func.attr}", tm[1])]
+            else:
+                callees_fn = [(c.qual, eff.funcs[c][1]) for c in eff.resolve_call(loop.iter, mi, ci, fn) if c in eff.funcs]
+            for cq, cfn in callees_fn:
                 n += 1
-                r = _handwritten_product(eff.funcs[c][1])
+                r = _handwritten_product(cfn)
+                c = type("Q", (), {"qual": cq})
                 key = f"product:{fn.name if fn else '?'}:{unparse(loop.iter)[:60]}"
                 if r is None:
                     raise AnalysisError(f"{mi.rel}:{loop.lineno}: instantiations are enumerated by {c.qual}, whose "
